@@ -278,3 +278,16 @@ func (t *SQLTable) Lookup(id string, created time.Time) string {
 	}
 	return ""
 }
+
+// SetRec overwrites the stored key_record of an existing row: the way a harness damages a stored row.
+func (t *SQLTable) SetRec(id string, created time.Time, rec string) bool {
+	t.mu.Lock()
+	defer t.mu.Unlock()
+	for i, r := range t.Rows {
+		if r.id == id && r.created.Equal(created) {
+			t.Rows[i].rec = rec
+			return true
+		}
+	}
+	return false
+}
